@@ -162,7 +162,7 @@ func ruleChainOrder(c *eng.Ctx) {
 	name := "core.(*Stream).Decode"
 	var loopCall *ssa.Call
 	for _, ci := range eng.Calls(fn, false, func(string, ssa.CallInstruction) bool { return true }) {
-		if call, ok := ci.(*ssa.Call); ok && call.Call.StaticCallee() == dwf && eng.InLoop(call.Block()) {
+		if call, ok := ci.(*ssa.Call); ok && eng.StaticCallee(call) == dwf && eng.InLoop(call.Block()) {
 			loopCall = call
 		}
 	}
@@ -614,7 +614,7 @@ func paramSymsDepth(fn *ssa.Function, depth int) func(ssa.Value) (*eng.Poly, boo
 		// the polynomial every successful return of the helper gives for that result
 		if ex, ok := v.(*ssa.Extract); ok && depth < 2 {
 			if call, ok := ex.Tuple.(*ssa.Call); ok {
-				if h := call.Call.StaticCallee(); h != nil && h.Blocks != nil && eng.InModule(h) && h.Name() != "getIntParam" {
+				if h := eng.StaticCallee(call); h != nil && h.Blocks != nil && eng.InModule(h) && h.Name() != "getIntParam" {
 					var poly *eng.Poly
 					for _, r := range eng.Returns(h) {
 						if n := len(r.Results); n > 0 {
@@ -635,7 +635,7 @@ func paramSymsDepth(fn *ssa.Function, depth int) func(ssa.Value) (*eng.Poly, boo
 			}
 		}
 		if call, ok := v.(*ssa.Call); ok {
-			if f := call.Call.StaticCallee(); f != nil && f.Name() == "getIntParam" && len(call.Call.Args) == 3 {
+			if f := eng.StaticCallee(call); f != nil && f.Name() == "getIntParam" && len(call.Call.Args) == 3 {
 				if s, ok := eng.ConstString(call.Call.Args[1]); ok {
 					return eng.PSym(s), true
 				}
@@ -664,7 +664,7 @@ func ruleRowGeometry(c *eng.Ctx, R string) {
 		return
 	}
 	leaf := paramSyms(fn)
-	calls := eng.Calls(fn, false, func(_ string, ci ssa.CallInstruction) bool { return ci.Common().StaticCallee() == pr.fn })
+	calls := eng.Calls(fn, false, func(_ string, ci ssa.CallInstruction) bool { return eng.StaticCallee(ci) == pr.fn })
 	if len(calls) != 1 {
 		c.Viol(R, "filters.applyPNGPredictor#rows", fn.Pos(), "rows are not decoded by exactly one decodePNGRow call in the row loop")
 		return
